@@ -245,7 +245,20 @@ pub fn state_parts(g: &Graph, nlines: &std::collections::BTreeMap<String, usize>
             .collect::<String>()
     );
     let metas = "(meta)".to_string(); // front-matter is private; it is observed through `md`
-    vec![("arena", arena), ("keys", keys_s), ("titles", titles), ("md", md), ("brefs", brefs), ("irefs", irefs), ("ranges", ranges), ("at", at), ("meta", metas)]
+    let paths = match catch(|| g.paths()) {
+        Ok(ps) => format!("(paths{})", ps.iter().map(|p| format!(" ({})", p.ids().iter().map(|i| i.to_string()).collect::<Vec<_>>().join(" "))).collect::<String>()),
+        Err(e) => format!("(paths (panic {}))", hex(&e)),
+    };
+    let spaths = match catch(|| g.search_paths()) {
+        Ok(ps) => format!(
+            "(spaths{})",
+            ps.iter()
+                .map(|sp| format!(" ({} {} {} {} {} ({}))", hex(&sp.search_text), sp.node_rank, hex(&sp.key.to_string()), sp.root, sp.line, sp.path.ids().iter().map(|i| i.to_string()).collect::<Vec<_>>().join(" ")))
+                .collect::<String>()
+        ),
+        Err(e) => format!("(spaths (panic {}))", hex(&e)),
+    };
+    vec![("arena", arena), ("keys", keys_s), ("titles", titles), ("md", md), ("brefs", brefs), ("irefs", irefs), ("ranges", ranges), ("at", at), ("meta", metas), ("paths", paths), ("spaths", spaths)]
 }
 
 /// split the children of a top-level list `(head a b c)` → ["head","a","b","c"]
